@@ -35,3 +35,15 @@ func compileMPCL(src string, params *utils.Params, sizes [][]int) (c *circuit.Ci
 	})
 	return
 }
+
+// compileMPCLFile compiles a program from a file (native("x.circ") circuits
+// are looked up next to it).
+func compileMPCLFile(file string, params *utils.Params, sizes [][]int) (c *circuit.Circuit, err error, pan *vrt.PanicInfo) {
+	if params == nil {
+		params = utils.NewParams()
+	}
+	pan = vrt.Guard(func() {
+		c, _, err = compiler.New(params).CompileFile(file, sizes)
+	})
+	return
+}
